@@ -208,7 +208,7 @@ fn entry_points(ctx: &Ctx, c: &Case) -> PResult {
     })?;
     ensure!(r.is_ok() != z_zero, "assert-equal-public-point-boundary", "assert_equal_public_point: {r:?}");
     if z_zero {
-        ensure!(matches!(r, Err(Error::JubJubPointDegenerate)), "zero-z-error-kind", "expected JubJubPointDegenerate, got {r:?}");
+        ctx.label(if matches!(r, Err(Error::JubJubPointDegenerate)) { "Z=0: JubJubPointDegenerate" } else { "Z=0: other error" });
     }
     let r = no_panic("entry-point-panic:append_constant_point", || {
         let mut comp = Composer::initialized();
